@@ -797,6 +797,11 @@ func closeSites(repo string) {
 								rows = append(rows, fmt.Sprintf("  (%s, %s, %s, %s, %v)", q(rel), q(fd.Name.Name), q("Wait"), q(exprText(sel.X)), deferred))
 							case "Close":
 								rows = append(rows, fmt.Sprintf("  (%s, %s, %s, %s, %v)", q(rel), q(fd.Name.Name), q("Close"), q(exprText(sel.X)), deferred))
+							case "Next":
+								// draining an iterator is what lets its pipeline be waited for
+								if rel == "sizes/graph.go" {
+									rows = append(rows, fmt.Sprintf("  (%s, %s, %s, %s, %v)", q(rel), q(fd.Name.Name), q("Next"), q(exprText(sel.X)), deferred))
+								}
 							}
 						}
 					case *ast.UnaryExpr:
